@@ -32,7 +32,7 @@ RULE = (
     "cases = (configuration, URI, route). URIs: all sequences of <=3 (quick) / <=4 (thorough, for the default and one "
     "two-root configuration) segments over {a.html sub .. . '' ..a.html a.html.. outside secret.html rootx root} x "
     "separator per gap {/ // \\} x leading {'' / // \\ \\/ /\\} x trailing {'' /}; family 'climb' = prefix {'' sub .} + "
-    "k in 1..5 '..' + tail of <=2 segments; family 'abs' = every leading spelling + absolute path of each file of the "
+    "k in 1..5 '..' + tail of <=2 segments; family 'cancel' = n names + (n-1 | n | n+1) '..' with different separators in the two runs; family 'abs' = every leading spelling + absolute path of each file of the "
     "scratch tree with / // or \\ as separator; hypothesis-drawn URIs of <=8 segments (free-form, targeted at an "
     "existing outside file, absolute) run as sequences of 1-4 steps on one lookup. Routes: get_template and "
     "has_template directly; 7 calling-template kinds (include, inherit, namespace name=, namespace import=, "
@@ -665,6 +665,21 @@ def climb_uris():
                             yield lead + head + tsp + tail
 
 
+def cancel_uris():
+    """n directory names and n-1 / n / n+1 '..' segments, the two runs joined by DIFFERENT separators: a URI that stays
+    inside (or just leaves) only if names and '..' are counted the same way by every component that looks at it"""
+    for n in (1, 2, 3):
+        for sn in SEPS:
+            for su in SEPS:
+                for j in SEPS:
+                    for ups in (n - 1, n, n + 1):
+                        head = sn.join(["sub"] * n) + (j + su.join([".."] * ups) if ups else "")
+                        for lead in ("", "/", "\\"):
+                            for tsp in ("/", "\\"):
+                                for tail in ("a.html", "sub" + tsp + "a.html", "secret.html"):
+                                    yield lead + head + tsp + tail
+
+
 def sweep_tails():
     for s in SEGS:
         if s not in ("", "."):
@@ -710,6 +725,8 @@ def _steps_for(task):
         gen = ({"uri": u} for i, u in enumerate(climb_uris()) if i % arg[1] == arg[0])
     elif fam == "abs":
         gen = abs_steps(ABS_RELS)
+    elif fam == "cancel":
+        gen = ({"uri": u} for u in cancel_uris())
     else:
         raise core.HarnessError("unknown family %r" % fam)
     seen = set()
@@ -870,7 +887,7 @@ def _cost(task):
         n = task["arg"][0]
         size = len(SEGS) ** (n - 1 if task["arg"][1] is not None else n) * len(SEPS) ** (n - 1)
         size /= task.get("split", (0, 1))[1]
-    elif task["fam"] == "climb":
+    elif task["fam"] in ("climb", "cancel"):
         size = 3000
     else:
         size = 300
@@ -897,6 +914,7 @@ def run(ctx):
         for cfg in fam_cfgs:
             tasks += [dict(cfg=cfg, fam="climb", arg=[i, 4], routes=["direct", "callers"]) for i in range(4)]
             tasks.append(dict(cfg=cfg, fam="abs", routes=["direct", "callers"]))
+            tasks.append(dict(cfg=cfg, fam="cancel", routes=["direct", "callers"]))
     if want("callers"):
         if ctx.quick:
             tasks += _sweep_tasks(QUICK_CFGS[0], 3, ["callers"], split=2)
